@@ -1,5 +1,7 @@
 #!/bin/bash
 # apply a seeded change to /repo, run the given checks, undo it
+# runs against a changed tree must not leave their evidence behind
+rm -rf /verif/.build/evidence.keep; cp -r /verif/evidence /verif/.build/evidence.keep
 id=$1; shift
 patch=/tmp/seed/$id-out/patch.diff
 [ -f "$patch" ] || patch=/verif/seeded/$id/patch.diff
@@ -9,3 +11,4 @@ for c in "$@"; do echo "--- check $c with seeded $id"; ./check $c 2>&1 | tail -4
 git -C /repo checkout -- .
 (cd /verif/harness && cargo build --offline 2>&1 | tail -1)
 git -C /repo status --short | head -3
+rm -rf /verif/evidence; mv /verif/.build/evidence.keep /verif/evidence
